@@ -28,19 +28,74 @@ HasTable(s, i) == i >= s.first /\ i <= s.first + NCerts(s)        \* certstore.G
 TableAt(s, i) == s.tables[i - s.first + 1]
 
 EffLimit(r) == Min(r.limit, Cap)
-WantsTable(s, r) == r.pt /\ Pending(s) >= r.first
-ServeFails(s, r) == WantsTable(s, r) /\ ~HasTable(s, r.first)     \* GetPowerTable error -> stream reset
-EndExcl(s, r) == IF InclusiveEnd THEN Min(r.first + EffLimit(r) + 1, Pending(s))
-                 ELSE Min(r.first + EffLimit(r), Pending(s))
-ServesCerts(s, r) == Pending(s) > r.first /\ (InclusiveEnd \/ EffLimit(r) > 0)
-RunLen(s, r) == IF ServesCerts(s, r) /\ HasCert(s, r.first) THEN EndExcl(s, r) - r.first ELSE 0
+\* Everything below the header is a function of the request, the (immutable) stored history and the
+\* pending instance `p` the server sampled for its header -- NOT of the store's pending instance at the
+\* time the range is read.  On a quiescent store p = Pending(s).
+WantsTableAt(r, p) == r.pt /\ p >= r.first
+ServeFailsAt(s, r, p) == WantsTableAt(r, p) /\ ~HasTable(s, r.first)   \* GetPowerTable error -> stream reset
+EndExclAt(r, p) == IF InclusiveEnd THEN Min(r.first + EffLimit(r) + 1, p)
+                   ELSE Min(r.first + EffLimit(r), p)
+ServesCertsAt(r, p) == p > r.first /\ (InclusiveEnd \/ EffLimit(r) > 0)
+RunLenAt(s, r, p) == IF ServesCertsAt(r, p) /\ HasCert(s, r.first) THEN EndExclAt(r, p) - r.first ELSE 0
+ServeAt(s, r, p) ==
+  IF ServeFailsAt(s, r, p) THEN [ok |-> FALSE, pending |-> 0, table |-> NoTable, certs |-> <<>>]
+  ELSE [ok |-> TRUE, pending |-> p,
+        table |-> IF WantsTableAt(r, p) THEN TableAt(s, r.first) ELSE NoTable,
+        certs |-> [i \in 1..RunLenAt(s, r, p) |-> CertAt(s, r.first + i - 1)]]
+
+WantsTable(s, r) == WantsTableAt(r, Pending(s))
+ServeFails(s, r) == ServeFailsAt(s, r, Pending(s))
+EndExcl(s, r) == EndExclAt(r, Pending(s))
+ServesCerts(s, r) == ServesCertsAt(r, Pending(s))
+RunLen(s, r) == RunLenAt(s, r, Pending(s))
 
 \* The response: header (pending instance, power table or none) and the certificates written.
-Serve(s, r) ==
-  IF ServeFails(s, r) THEN [ok |-> FALSE, pending |-> 0, table |-> NoTable, certs |-> <<>>]
-  ELSE [ok |-> TRUE, pending |-> Pending(s),
-        table |-> IF WantsTable(s, r) THEN TableAt(s, r.first) ELSE NoTable,
-        certs |-> [i \in 1..RunLen(s, r) |-> CertAt(s, r.first + i - 1)]]
+Serve(s, r) == ServeAt(s, r, Pending(s))
+
+\* ---------------------------------------------------------------- the request on a concurrently advancing store
+(* handleRequest is not atomic: it reads the store several times (Latest() for the header; GetPowerTable;
+   one datastore read per certificate of GetRange) while certstore.Put may land between any two reads.
+   Concurrent store  cs = [first, certs, tables, lat]:
+       certs/tables  what is visible in the datastore (Put writes the certificate first),
+       lat           number of certificates covered by the Latest() pointer (Put advances it last, under
+                     the store mutex, so Latest() sees a Put entirely or not at all).
+   In-flight request q = [r, pc, pending, table, end, certs, ok]; pc in hdr -> (tbl) -> bound -> rng -> done.
+   `dev` names a deviation of the range bound (design-check mutants and nothing else):
+       "none"      bound = the pending instance placed in the header            (the code)
+       "resample"  bound = the store's pending instance re-read at that point   (TOCTOU)
+       "noclip"    bound = first + limit only (GetRange stops at the first missing certificate)
+       "cliphigh"  bound = header pending + 1                                                      *)
+Committed(cs) == [first |-> cs.first, certs |-> SubSeq(cs.certs, 1, cs.lat), tables |-> SubSeq(cs.tables, 1, cs.lat + 1)]
+Visible(cs) == [first |-> cs.first, certs |-> cs.certs, tables |-> cs.tables]
+PendingLo(cs) == Pending(Committed(cs))
+PendingHi(cs) == Pending(Visible(cs))
+AsConc(s) == [first |-> s.first, certs |-> s.certs, tables |-> s.tables, lat |-> Len(s.certs)]
+PutWriteEnabled(cs) == Len(cs.certs) = cs.lat                        \* one Put at a time (store mutex)
+PutWrite(cs, e, t) == [cs EXCEPT !.certs = Append(@, e), !.tables = Append(@, t)]
+PutCommit(cs) == [cs EXCEPT !.lat = Len(cs.certs)]
+
+ReqStart(r) == [r |-> r, pc |-> "hdr", pending |-> 0, table |-> NoTable, end |-> 0, certs |-> <<>>, ok |-> TRUE]
+StepHeader(cs, q) == LET p == PendingLo(cs) IN
+   [q EXCEPT !.pending = p, !.pc = IF WantsTableAt(q.r, p) THEN "tbl" ELSE "bound"]
+StepTable(cs, q) ==       \* GetPowerTable(first): domain first .. Latest()+1 at the time of the call; tables are history
+   IF ~HasTable(Committed(cs), q.r.first) THEN [q EXCEPT !.ok = FALSE, !.pc = "done"]
+   ELSE [q EXCEPT !.table = TableAt(Visible(cs), q.r.first), !.pc = "bound"]
+StepBound(cs, q, dev) ==
+   LET b == IF dev = "resample" THEN PendingLo(cs) ELSE q.pending
+       e == CASE dev = "noclip" -> q.r.first + EffLimit(q.r)
+              [] dev = "cliphigh" -> Min(q.r.first + EffLimit(q.r), q.pending + 1)
+              [] OTHER -> Min(q.r.first + EffLimit(q.r), b)
+   IN IF b > q.r.first /\ EffLimit(q.r) > 0 THEN [q EXCEPT !.end = e, !.pc = "rng"] ELSE [q EXCEPT !.pc = "done"]
+StepReadCert(cs, q) ==    \* one datastore read of GetRange; the loop stops at the first missing certificate
+   LET i == q.r.first + Len(q.certs) IN
+   IF i < q.end /\ HasCert(Visible(cs), i) THEN [q EXCEPT !.certs = Append(@, CertAt(Visible(cs), i))]
+   ELSE [q EXCEPT !.pc = "done"]
+StepReq(cs, q, dev) == CASE q.pc = "hdr" -> StepHeader(cs, q) [] q.pc = "tbl" -> StepTable(cs, q)
+                         [] q.pc = "bound" -> StepBound(cs, q, dev) [] q.pc = "rng" -> StepReadCert(cs, q)
+\* the response of a finished request, in the shape the clauses below take
+RespOf(q) == [ok |-> q.ok, pending |-> IF q.ok THEN q.pending ELSE 0, table |-> IF q.ok THEN q.table ELSE NoTable,
+              certs |-> IF q.ok THEN q.certs ELSE <<>>,
+              insts |-> IF q.ok THEN [i \in DOMAIN q.certs |-> q.r.first + i - 1] ELSE <<>>]
 
 \* ---------------------------------------------------------------- client
 \* `sent` = what arrives on the stream after the header: items [inst, dec, ...]; dec = FALSE for an
